@@ -30,8 +30,8 @@ class C04(Check):
         "zero-byte records or a wrapper stream."
     )
     assumptions = ["codecs limited to those importable here (probe recorded in evidence)", "metadata keys starting with 'avro.' are reserved and not generated"]
-    required_labels = ["blocks>=2", "codec:deflate", "codec:bzip2", "codec:xz", "stream:seq-in", "stream:wo-out", "stream:file", "zero-byte-records", "top:non-record", "records:0", "interval-exact"]
-    quick = (500, 1)
+    required_labels = ["blocks>=2", "codec:deflate", "codec:bzip2", "codec:xz", "stream:seq-in", "stream:wo-out", "stream:file", "zero-byte-records", "top:non-record", "records:0", "interval-exact", "two-readers-interleaved"]
+    quick = (1500, 1)
     thorough = (4000, 16)
 
     def __init__(self):
@@ -148,6 +148,35 @@ class C04(Check):
         for k, v in supplied.items():
             if meta.get(k) != v:
                 raise Violation("metadata-lost", f"metadata {k!r}: supplied {v!r}, reported {meta.get(k)!r}")
+
+        # two readers alive at once: a second file defining the same type names differently must not disturb the first
+        variant = gen.reversed_variant(js)
+        if variant is not None:
+            vdata = guard("write-container", self._write, case, variant, 1, "null", {}, "bytesio")
+            r1 = guard("read-container", fastavro.reader, io.BytesIO(data))
+            r2 = guard("read-container", fastavro.reader, io.BytesIO(vdata))
+            got1, got2 = [], []
+            it1, it2 = iter(r1), iter(r2)
+            done1 = done2 = False
+            END = object()
+            while not (done1 and done2):
+                if not done1:
+                    v = guard("read-container", next, it1, END)
+                    if v is END:
+                        done1 = True
+                    else:
+                        got1.append(v)
+                if not done2:
+                    v = guard("read-container", next, it2, END)
+                    if v is END:
+                        done2 = True
+                    else:
+                        got2.append(v)
+            labels.add("two-readers-interleaved")
+            if len(got1) != len(exp) or not all(B.same(g, e) for g, e in zip(got1, exp)):
+                raise Violation("reader-disturbed-by-other-reader", f"with a second reader (same type names, other definitions) alive, the file reads {short(got1)} instead of {short(exp)}; schema={js!r:.300}")
+            if len(got2) != len(exp) or not all(B.same_by_value(g, e) for g, e in zip(got2, exp)):
+                raise Violation("reader-disturbed-by-other-reader", f"the variant file reads {short(got2)} instead of {short(exp)}; variant={variant!r:.300}")
 
         # metamorphic: other grouping (and codec), re-using the caller's metadata dict object
         data2 = guard("write-container", self._write, case, schema, case["sync_interval2"], case["codec2"], metadata, "bytesio")
